@@ -371,6 +371,14 @@ func (x *Exec) contractVars(fc *FuncContract, callee *ssa.Function, args []Val) 
 				vars[prm.Name()] = args[i]
 			}
 		}
+		// parameters renamed since the contract was written keep their recorded names as aliases
+		for was, now := range x.e.renamesOf(callee) {
+			if v, ok := vars[now]; ok {
+				if _, taken := vars[was]; !taken {
+					vars[was] = v
+				}
+			}
+		}
 	} else {
 		for i, n := range fc.ParamNames {
 			if i < len(args) {
